@@ -109,6 +109,37 @@ Theorem C06_histogram_quantile_order_independent_generic : forall (V : Type) (o 
 Proof. exact BucketProofs.bucket_quantile_perm. Qed.
 Print Assumptions C06_histogram_quantile_order_independent_generic.
 
+(* On the rationals, for a well-formed histogram (at least two buckets, cumulative counts non-decreasing,
+   a positive total, finite strictly increasing upper bounds before the last bucket) and 0 <= q <= 1:
+   the bisection finds the first bucket whose cumulative count reaches the rank q * total; in the last
+   (+Inf) bucket the result is the highest finite bound; otherwise it lies between the previous bound
+   (0 for the first bucket when its bound is positive; the bound itself when it is not) and the bucket's own.
+   [bq_core] is what [bucket_quantile] applies to the sorted, merged, monotone buckets. *)
+From Verif Require RangeArithProofs BucketRange.
+Theorem C06_histogram_quantile_lies_in_the_rank_bucket : forall (pinf : QArith_base.Q) m us q,
+  BucketRange.wf_hist m us -> QArith_base.Qle (QArith_base.inject_Z 0) q -> QArith_base.Qle q (QArith_base.inject_Z 1) ->
+  let n := List.length m in
+  let rank := QArith_base.Qmult q (Bucket.cnt QArith_base.Q (BucketRange.qnth m (n - 1))) in
+  let b := BucketRange.rank_bucket q m in
+  let r := Bucket.bq_core QArith_base.Q RangeArithProofs.qops pinf q m in
+  (b <= n - 1)%nat /\
+  (forall k, (k < b)%nat -> QArith_base.Qlt (Bucket.cnt QArith_base.Q (BucketRange.qnth m k)) rank) /\
+  QArith_base.Qle rank (Bucket.cnt QArith_base.Q (BucketRange.qnth m b)) /\
+  (b = (n - 1)%nat -> r = us (n - 2)%nat) /\
+  ((b < n - 1)%nat -> b = 0%nat -> QArith_base.Qle (us 0%nat) (QArith_base.inject_Z 0) -> r = us 0%nat) /\
+  ((b < n - 1)%nat -> b = 0%nat -> QArith_base.Qlt (QArith_base.inject_Z 0) (us 0%nat) ->
+     QArith_base.Qle (QArith_base.inject_Z 0) r /\ QArith_base.Qle r (us 0%nat)) /\
+  ((b < n - 1)%nat -> forall b', b = S b' -> QArith_base.Qle (us b') r /\ QArith_base.Qle r (us b)).
+Proof. exact BucketRange.quantile_in_rank_bucket. Qed.
+Print Assumptions C06_histogram_quantile_lies_in_the_rank_bucket.
+
+Example C06_histogram_wellformed_example :
+  BucketRange.wf_hist [Bucket.mkB QArith_base.Q (Some (QArith_base.inject_Z 1)) (QArith_base.inject_Z 2);
+                       Bucket.mkB QArith_base.Q (Some (QArith_base.inject_Z 2)) (QArith_base.inject_Z 6);
+                       Bucket.mkB QArith_base.Q None (QArith_base.inject_Z 8)]
+                      (fun i => QArith_base.inject_Z (Z.of_nat (S i))).
+Proof. exact BucketRange.wf_example. Qed.
+
 (* non-vacuity: the median of the histogram le=1:2, le=2:6, le=+Inf:8 (rank 4, second bucket: 1 + (2-1)*(4-2)/(6-2) = 3/2),
    from the buckets in two orders, one of them with the second bucket split in two series *)
 Example C06_histogram_example :
